@@ -105,7 +105,18 @@ fn on_step(rec: &StepRec, t: &mut Tally) {
 }
 
 pub fn judge(_part: &str, case: &Case, tally: &mut Tally) -> Verdict {
-    spec_judge(case, &SpecOpts { own: Class::Print, scrollback: false }, tally, &mut on_step)
+    let v = spec_judge(case, &SpecOpts { own: Class::Print, scrollback: false }, tally, &mut on_step);
+    if v != Verdict::Pass {
+        return v;
+    }
+    // "... no other cell, soft-wrap mark or mode changes": hidden modes through behaviour
+    if case.nums.first() == Some(&1) {
+        let pure = |f: &RefFn| matches!(f, RefFn::Print(_) | RefFn::Rep(_) | RefFn::Cr);
+        if let Some(v) = crate::spec::mode_frame_check(case, &pure, tally) {
+            return v;
+        }
+    }
+    Verdict::Pass
 }
 
 pub fn gen_random(src: &mut Src, _i: usize) -> Case {
@@ -186,6 +197,9 @@ pub fn run(env: &Env) -> PropRun {
                 for k in 0..len {
                     case.calls.push(Call::FeedStr(b.ops[d[6 + k]].clone()));
                 }
+                // mode-frame check on a sample (each costs ~50 replays; REP 65535 replays are slow)
+                let heavy = (0..len).any(|k| b.ops[d[6 + k]].contains("65535"));
+                case.nums = vec![(i % 24 == 0 && !heavy) as usize];
                 return Some(case);
             }
             i -= b.total;
